@@ -1850,8 +1850,17 @@ class Pipeline:
             output_nodes &= downstream
         needed = _find_needed_functions(pipeline, set(inputs or ()), output_nodes)
         drop = [f for f in pipeline.functions if f not in needed]
+        defaults = pipeline.defaults  # a shared default might be set only by a dropped function
         for f in drop:
             pipeline.drop(f=f)
+        for f in pipeline.functions:
+            shared = {
+                p: v
+                for p, v in defaults.items()
+                if p in f.parameters and p not in f.defaults and p not in f._bound
+            }
+            if shared:
+                f.update_defaults(shared)
 
         if inputs is not None:
             new_root_args = set(pipeline.topological_generations.root_args)
